@@ -102,7 +102,7 @@ def main():
                  ['secretstore/zz_verif_env.go', 'secretstore/zz_verif_rand.go', 'C09/zz_verif_c09_coop.go'],
                  installers=[crypto.install, crypto.install_proto, c02.install], init_pkgs=[MOD + '/pkg/errcode'], prelude_pkgname='secretstore')
     chk2.load([P + 'VerifC09Coop', P + 'VerifC09FirstUse', P + 'VerifC09Replay'])
-    cgrid = [(2, 1, 1, 1), (2, 1, 0, 1)] if t == 'quick' else [(2, 1, 1, 3), (2, 1, 0, 2), (2, 2, 1, 2), (3, 1, 1, 2)]
+    cgrid = [(2, 1, 1, 1), (2, 1, 0, 1)] if t == 'quick' else [(2, 1, 1, 2), (2, 1, 0, 2), (2, 2, 1, 1)]
     kj = []
     for (sn, per, same, pre) in cgrid:
         K = (6 if same == 1 else 3) if t == 'quick' else 14
